@@ -305,7 +305,7 @@ func (x *Exec) frameObligations(fr *Frame, env *CEnv, fin *State) {
 		v := env.eval(e)
 		env.st = saved
 		switch {
-		case v.K == KSlice:
+		case v.K == KSlice && (e.Kind != "field" || star):
 			for _, lf := range m.flatten(v.Loc.T) {
 				n := v.Loc.Prefix + lf.Suffix
 				allow[n] = append(allow[n], allowed{root: v.Loc.Root, elems: v.Loc.Elems, rng: &[2]*Term{v.Off, x.ixAdd(v.Off, v.Len)}})
